@@ -12,6 +12,23 @@ ASSUMPTIONS = ["work the program explicitly requests is excluded by the property
                "stack exhaustion from thousands of nested brackets and allocator behaviour are runtime phenomena outside the model (observed by the worker supervisor only)"]
 TRUSTED = ["the worker supervisor (timeouts, RLIMIT_AS) classifies hangs and aborts"]
 
+NEED_OVF = True
+
+BIG = ["9223372036854775807", "9223372036854775808", "99999999999999999999999", "-9223372036854775807", "-9223372036854775808", "4611686018427387904",
+       "2147483648", "4294967296", "18446744073709551615", "-99999999999999999999999"]
+# one numeric slot each; none of them is a repeat count, a track number, a macro depth or the length of a ramp (work the program asks for stays bounded)
+BIG_TEMPLATES = ["v%s c", "c%%%s", "o%s c", "q%s c", "t%s c", "l%s c", "l%%%s c", "l%%%s c.", "l%%%s c^^", "r%s c", "r%%%s c", "c%s", "c^%s", "c,%s", "c,,%s", "c,,,%s", "c,,,,%s", "n%s", "n60,%s", "n60,,%s",
+                 "y1,%s c", "y%s,1 c", "p%s c", "PB(%s) c", "@%s c", "@1,%s c", "Tempo(%s) c", "Tempo=%s; c", "TempoChange(%s,120,4) c", "KeyShift(%s) c", "TrackKey(%s) c", "TimeBase=%s c1", "TimeBase(%s) c",
+                 "Time(%s:1:1) c", "Time(1:%s:1) c", "Time(1:1:%s) c", "TIME(%s) c", "PlayFrom(%s:1:0) c", "TimeSignature(%s,4) TIME(2:1:0) c", "TimeSignature(4,%s) TIME(2:1:0) c",
+                 "INT A=%s; A=A+1; PRINT(A) c", "INT A=%s; A=A-2; PRINT(A)", "INT A=%s; A=A*A; PRINT(A)", "INT A=%s; A++; PRINT(A)", "INT A=%s; A--; PRINT(A)", "PRINT(%s+1)", "PRINT(%s-2)", "PRINT(0-%s)", "PRINT(%s*3)", "PRINT(%s/-1)", "PRINT(%s%%-1)",
+                 "PRINT(Random(%s))", "PRINT(Random(1,%s))", "PRINT(MID({abc},%s,2))", "PRINT(MID({abc},1,%s))", "PRINT(CHR(%s))", "PRINT(HEX(%s))", "ARRAY A=(1,2) PRINT(A(%s))", "PRINT(ABS(%s))",
+                 "v.onNote(%s) c", "q.onNote(%s) c", "t.onNote(%s) c", "o.onNote(%s) c", "l.onNote(%s) c", "v.Random(%s) c d", "t.Random(%s) c d", "q.Random(%s) c d", "o.Random(%s) c d", "v.onTime(0,%s,96) c",
+                 "y1.onTime(%s,0,96) c", "p.onTime(0,%s,96) c", "PB.onTime(0,%s,96) c", "y1.Frequency(%s) y1.onTime(0,127,96) c", "y1.onNote(%s) c",
+                 "Slur(%s) c&d e", "c&d,%s e", "BR(%s) c", "RPN(%s,1,1)", "RPN(1,%s,1)", "RPN(1,1,%s)", "NRPN(1,1,%s)", "M(%s)", "MasterVolume(%s)", "MasterBalance(%s)", "SysEx$=f0,%s,f7;",
+                 "DirectSMF(%s) c", "Port(%s) c", "CH(%s) c", "CH=%s c", "v+%s c", "v-%s c", "o+%s c", "q+%s c", "t-%s c", "(%s c", ")%s c", "vAdd(%s) ( c", "qAdd(%s) c", "MeasureShift(%s) TIME(2:1:0) c", "RandomSeed(%s) v.Random(9) c",
+                 "{c d}%s", "{c d}%%%s", "'ce'%s", "'ce',%s", "'ce',,%s", "Sub{c%s} d", "Rhythm{b%s}", "Cresc(4,%s,127)", "Cresc(4,1,%s)", "GSReverbMacro(%s)", "Voice(%s)", "Voice(1,%s)",
+                 "FOR(INT I=%s;I<3;I++){c}", "FOR(INT I=0;I>%s;I++){BREAK}", "IF(%s){c}", "WHILE(0>%s){BREAK}", "FUNCTION F(A){ RETURN(A*2) } PRINT(F(%s))", "#M={c #?1} #M(%s)", "STR S={a}; PRINT(S+%s)", "PRINT({a}*%s)"]
+
 def fragments():
     line = open(os.path.join(VERIF, "tools", "fragments.json"), encoding="utf-8").read()
     return json.loads(line)
@@ -55,12 +72,18 @@ def streams(tier, rng, P, only=None, cases=None):
                     "Sub{", "Div{c}-4", "{c}%0", "c%-5 d", "l%-9 c d", "r-1 c", "c,,,-999 d", "TIME(-5) c", "PlayFrom(-1) c", "PlayFrom(99:1:0) c", "? ? c",
                     "WHILE(1){ CONTINUE }", "INT I=0; WHILE(I<4){ IF(I==2){ CONTINUE } c I++ } d", "FOR(;;){ CONTINUE }", "WHILE(1){ IF(1){ CONTINUE } c }",
                     "FUNCTION F(){ WHILE(1){ IF(1){ CONTINUE } } } F()", "WHILE(1){ FOR(INT I=0;I<2;I++){ CONTINUE } CONTINUE }",
+                    "INT A=-9223372036854775808; INT B=0-1; PRINT(A/B)", "INT A=-9223372036854775808; INT B=0-1; PRINT(A%B)", "PRINT(-9223372036854775808/(0-1))",
                     "PRINT(9999999999999999999)", "v9999999999999999999 c", "TIME(9999999999999999999) c", "o9999999999999999999 c", "n9999999999999999999", "INT A=9999999999999999999*9999999999999999999 PRINT(A)"]:
             add(src, "corpus")
         return cs
     def judge(c, impl, m):
         st, f = impl
         if st == "ok": return None
+        if st == "abort":
+            # a mutation may leave a call of a function inside that function's own (now unclosed) body: unbounded user recursion, which the
+            # property excludes; the stack then overflows by request
+            for name in re.findall(r"(?i)FUNCTION\s+([A-Za-z_][A-Za-z0-9_]*)", c["src"]):
+                if len(re.findall(r"\b%s\s*\(" % re.escape(name), c["src"])) >= 2: return None
         msg = ""
         if st == "panic":
             try: msg = unhx(f.get("msg", "~")).decode("utf-8", "replace")[:160]
@@ -102,4 +125,26 @@ def streams(tier, rng, P, only=None, cases=None):
             cs.append(dict(req="compile %s 0 en lib" % hx(src), src=src, show=repr(src)[:200], key="u%d" % i))
         return cs
     s3 = Stream("unicode", cases if (cases and only == "unicode") else mk_uni(), lambda c, st, f: [], judge, nt, "arbitrary Unicode strings", timeout_case=8.0)
-    return [s for s in (s1, s2, s3) if only in (None, s.name)]
+    # ---- overflow: the build with arithmetic overflow checks on (what `cargo test` and debug builds run): numbers near and beyond the 64-bit
+    #      range in every numeric slot, then fragment sequences and mutants as above
+    def mk_ovf():
+        cs = []; seen = set()
+        def add(src, key):
+            if src in seen: return
+            seen.add(src); cs.append(dict(req="compile %s 0 en lib" % hx(src), src=src, show=repr(src)[:200], key=key))
+        for t in BIG_TEMPLATES:
+            for b in BIG: add(t.replace("%s", b, 1) if t.count("%s") == 1 else t % b, "big")
+        for a in fr: add(a, "1")
+        nums = [a for a in fr if any(ch.isdigit() for ch in a)]
+        for a in nums:
+            for b in nums:
+                if (a + b).count("WHILE(1){") + (a + b).count("FOR(;;)") <= 1: add(a + b, "2")
+        for _ in range(20000 if big else 1500):
+            src = rng.choice(["", " "]).join(rng.choice(fr) for _ in range(rng.randrange(2, 6)))
+            if src.count("WHILE(1){") + src.count("FOR(;;)") > 1 or "Random(" in src and "TR" in src: continue
+            add(re.sub(r"\d{5,}", lambda m: m.group(0)[:3], src), "k")
+        for j, s_ in enumerate(mml.sample_sources()): add(s_, "sample%d" % j)
+        return cs
+    s4 = Stream("overflow", cases if (cases and only == "overflow") else mk_ovf(), lambda c, st, f: [], judge, nt, "overflow-checked build: extreme numbers, fragments, songs", timeout_case=15.0)
+    s4.variant = "ovf"
+    return [s for s in (s1, s2, s3, s4) if only in (None, s.name)]
